@@ -120,6 +120,12 @@ def oracle(run: runner.Run, oc: Outcome) -> None:
 
         # ---------------- B. per-cycle sequence clauses ----------------
         for cyc in cycles:
+            # An object deleted under a running handler: the step's write meets a 404 and is dropped silently
+            # (by design); the events still queued for it are then processed on outdated records.
+            seq_lo = cyc[0].seq0
+            seq_hi = cyc[-1].seq1 if cyc[-1].seq1 is not None else float('inf')
+            if any(e[2] == 'rsp' and e[4] == 404 and seq_lo <= e[0] <= seq_hi for e in run.sim.trace):
+                continue
             calls = [c for s in cyc for c in s.calls if c.hkind in common.CHANGE_KINDS]
             by_h: dict[str, list[runner.Call]] = {}
             for c in calls:
@@ -138,7 +144,7 @@ def oracle(run: runner.Run, oc: Outcome) -> None:
                                     and st_.how != 'returned':
                                 excuse = f'step-{st_.how}'
                     stopping = [d for d in run.calls if d.hkind == 'daemon' and d.uid == uid
-                                and d.t0 <= oks[-1].t0 and (d.t1 is None or d.t1 >= oks[0].t0)]
+                                and d.t0 <= oks[-1].t0 and (d.t1 is None or d.t1 >= cyc[0].t0)]
                     if (fault_free or excuse is None) and stopping and cyc[0].reason == 'delete':
                         oc.add('C02/double-success', 'delete-while-daemons-stop',
                                f"delete handler {hid} succeeded {len(oks)} times (calls {[c.n for c in oks]}) for {uid} "
@@ -149,7 +155,7 @@ def oracle(run: runner.Run, oc: Outcome) -> None:
                                f"(calls {[c.n for c in oks]}) with no crash/lost response/echo delay in between",
                                uid=uid, hid=hid)
                 dstop = cyc[0].reason == 'delete' and any(
-                    d.hkind == 'daemon' and d.uid == uid and d.t0 <= cs[-1].t0 and (d.t1 is None or d.t1 >= cs[0].t0)
+                    d.hkind == 'daemon' and d.uid == uid and d.t0 <= cs[-1].t0 and (d.t1 is None or d.t1 >= cyc[0].t0)
                     for d in run.calls)
                 if fault_free and not is_parent:
                     retries = [c.retry for c in cs]
